@@ -67,6 +67,12 @@ def board_to_fen(b):
     return "/".join(rows)
 
 
+def mirror_move(m):
+    """the same move on the colour-flipped board (ranks reversed)"""
+    flip = lambda sq: sq[0] + str(9 - int(sq[1]))
+    return flip(m[0:2]) + flip(m[2:4]) + m[4:]
+
+
 def mirror_fen(fen):
     parts = fen.split()
     b = board_from_fen(fen)
